@@ -15,7 +15,6 @@ func (i *interpreter) atomicSync(obj *value, store bool) {
 	if s == nil || !s.multi() {
 		return
 	}
-	i.schedPoint(i.curFrame(), "atomic")
 	vc := s.atomics[obj]
 	if store {
 		nv := vc.clone()
@@ -27,18 +26,35 @@ func (i *interpreter) atomicSync(obj *value, store bool) {
 	i.acquire(s.atomics[obj])
 }
 
+// atomicPoint is the scheduling point in front of an atomic operation on obj.
+func (i *interpreter) atomicPoint(obj *value, store bool) {
+	s := i.sched
+	if s == nil || !s.multi() {
+		return
+	}
+	fr := i.curFrame()
+	if store {
+		i.syncWrite(obj)
+		i.schedPoint(fr, "atomic")
+	} else if i.syncRead(fr, obj, "atomic-load") {
+		i.schedPoint(fr, "atomic")
+	}
+}
+
 // atomicRMW performs an atomic read(-modify-write) on *addr with acquire/release ordering.
 func (i *interpreter) atomicRMW(addr value, f func(value) value, store bool) value {
 	p := addr.(*value)
 	if p == nil {
 		panic(runtimeError("invalid memory address or nil pointer dereference"))
 	}
+	i.atomicPoint(p, store)
 	if f != nil {
 		i.logAddr(p)
 		*p = f(*p)
 	}
+	r := *p
 	i.atomicSync(p, store)
-	return *p
+	return r
 }
 
 func (i *interpreter) atomicCAS(addr, old, nw value) value {
@@ -46,6 +62,7 @@ func (i *interpreter) atomicCAS(addr, old, nw value) value {
 	if p == nil {
 		panic(runtimeError("invalid memory address or nil pointer dereference"))
 	}
+	i.atomicPoint(p, true)
 	ok := *p == old
 	if ok {
 		i.logAddr(p)
@@ -68,11 +85,13 @@ func init() {
 	for k, v := range map[string]externalFn{
 		"(*sync/atomic.Value).Load": func(fr *frame, a []value) value {
 			obj, f := fieldPtr(a[0], 0)
+			fr.i.atomicPoint(obj, false)
 			fr.i.atomicSync(obj, false)
 			return *f
 		},
 		"(*sync/atomic.Value).Store": func(fr *frame, a []value) value {
 			obj, f := fieldPtr(a[0], 0)
+			fr.i.atomicPoint(obj, true)
 			if v, ok := a[1].(iface); ok && v.t == nil {
 				panic(targetPanic{iface{fr.i.runtimeErrorString, "sync/atomic: store of nil value into Value"}})
 			}
@@ -83,6 +102,7 @@ func init() {
 		},
 		"(*sync/atomic.Int32).Add": func(fr *frame, a []value) value {
 			obj, f := fieldPtr(a[0], 1)
+			fr.i.atomicPoint(obj, true)
 			fr.i.logAddr(f)
 			*f = (*f).(int32) + a[1].(int32)
 			fr.i.atomicSync(obj, true)
@@ -90,11 +110,13 @@ func init() {
 		},
 		"(*sync/atomic.Int32).Load": func(fr *frame, a []value) value {
 			obj, f := fieldPtr(a[0], 1)
+			fr.i.atomicPoint(obj, false)
 			fr.i.atomicSync(obj, false)
 			return *f
 		},
 		"(*sync/atomic.Int32).Store": func(fr *frame, a []value) value {
 			obj, f := fieldPtr(a[0], 1)
+			fr.i.atomicPoint(obj, true)
 			fr.i.logAddr(f)
 			*f = a[1]
 			fr.i.atomicSync(obj, true)
